@@ -189,12 +189,23 @@ class Parser:
             args = []
             if not self.accept(']'):
                 while True:
-                    args.append(self.expr(0))
+                    args.append(self.compound())
                     if self.accept(']'):
                         break
                     self.expect(',')
             node = ('call', node, args)
         return node
+
+    def compound(self):
+        """a; b; c inside brackets (CompoundExpression): ('seq', [statements]) or a single expression"""
+        items = [self.statement_in_list()]
+        while self.peek() == ('op', ';'):
+            self.next()
+            self.skip_nl_if_incomplete()
+            if self.peek() in (('op', ']'), ('op', ',')):
+                break
+            items.append(self.statement_in_list())
+        return items[0] if len(items) == 1 else ('seq', items)
 
     def statement_in_list(self):
         e = self.expr(0)
@@ -203,26 +214,38 @@ class Parser:
         return e
 
 class Definitions:
-    """definitions of one file: functions[name] = (params, body), values[name] = expr"""
+    """definitions of one file: functions[name] = (params, body) for the GENERAL definition (distinct blank patterns), special[name] = [(argument patterns, body)] for
+    definitions with literal arguments (F1C[0] := 4) or repeated blanks (Fa[x_, x_] := ...), values[name] = expr"""
     def __init__(self, src):
-        self.functions, self.values, self.seqdefs = {}, {}, {}
+        self.functions, self.values, self.seqdefs, self.special = {}, {}, {}, {}
         for st in Parser(tokenize(src)).statements():
             if st[0] == 'setd':
                 lhs, rhs = st[1], st[2]
+                if lhs[0] == 'sym':
+                    self.values[lhs[1]] = rhs          # name := expr (delayed value)
+                    continue
                 if lhs[0] != 'call' or lhs[1][0] != 'sym':
                     raise MmaError('unsupported delayed definition %r' % (lhs,))
-                params = []
-                for a in lhs[2]:
-                    if a[0] != 'sym' or not a[1].endswith('_'):
-                        raise MmaError('unsupported pattern %r' % (a,))
-                    params.append(a[1])
                 name = lhs[1][1]
-                if any(p.endswith('__') for p in params):
-                    if len(params) != 1:
-                        raise MmaError('unsupported sequence pattern in %s' % name)
-                    self.seqdefs[name] = (params[0].rstrip('_'), rhs)
+                blanks = [a[1] for a in lhs[2] if a[0] == 'sym' and a[1].endswith('_')]
+                if len(blanks) == len(lhs[2]) and len(set(blanks)) == len(blanks):
+                    if any(p.endswith('__') for p in blanks):
+                        if len(blanks) != 1:
+                            raise MmaError('unsupported sequence pattern in %s' % name)
+                        self.seqdefs[name] = (blanks[0].rstrip('_'), rhs)
+                    elif name in self.functions and len(self.functions[name][0]) != len(blanks):
+                        # overloads by arity (FdHp[ms2,md2,mu2,qd,qu] and FdHp[xu,xd,qd,qu]): keyed by name/arity
+                        self.functions['%s/%d' % (name, len(blanks))] = ([p.rstrip('_') for p in blanks], rhs)
+                    else:
+                        self.functions[name] = ([p.rstrip('_') for p in blanks], rhs)
                 else:
-                    self.functions[name] = ([p.rstrip('_') for p in params], rhs)
+                    pats = []
+                    for a in lhs[2]:
+                        if a[0] == 'sym' and a[1].endswith('_') and not a[1].endswith('__'):
+                            pats.append(('blank', a[1].rstrip('_')))
+                        else:
+                            pats.append(('lit', a))
+                    self.special.setdefault(name, []).append((pats, rhs))
             elif st[0] == 'set':
                 if st[1][0] != 'sym':
                     raise MmaError('unsupported assignment %r' % (st[1],))
@@ -231,6 +254,22 @@ class Definitions:
                 pass
             else:
                 raise MmaError('unsupported top-level expression %r' % (st,))
+
+    def special_value(self, name, lits):
+        """body of the definition name[l1, l2, ...] whose arguments are exactly the given literal ASTs (None if there is none)"""
+        for pats, body in self.special.get(name, []):
+            if len(pats) == len(lits) and all(p[0] == 'lit' and p[1] == l for p, l in zip(pats, lits)):
+                return body
+        return None
+
+    def repeated_blank(self, name, shape):
+        """(parameter names, body) of the definition whose pattern has the given equality shape, e.g. (0, 0) for f[x_, x_]"""
+        for pats, body in self.special.get(name, []):
+            if len(pats) == len(shape) and all(p[0] == 'blank' for p in pats):
+                names = [p[1] for p in pats]
+                if tuple(names.index(n) for n in names) == tuple(shape):
+                    return names, body
+        return None
 
 def _subst(e, env):
     """substitute symbols by AST nodes (capture is not an issue in these files: locals of Module are substituted before the body is used)"""
@@ -245,6 +284,8 @@ def _subst(e, env):
         return ('list', [_subst(a, env) for a in e[1]])
     if k == 'neg':
         return ('neg', _subst(e[1], env))
+    if k == 'seq':
+        return ('seq', [_subst(a, env) for a in e[1]])
     return (k,) + tuple(_subst(a, env) for a in e[1:])
 
 class Evaluator:
@@ -320,9 +361,17 @@ class Evaluator:
                     raise MmaError('Module locals')
                 env = {}
                 for s in loc[1]:
+                    if s[0] == 'sym':
+                        continue                      # local without initial value: assigned in the body
                     if s[0] != 'set' or s[1][0] != 'sym':
                         raise MmaError('unsupported Module local %r' % (s,))
                     env[s[1][1]] = _subst(s[2], env)
+                if body[0] == 'seq':
+                    for st in body[1][:-1]:
+                        if st[0] != 'set' or st[1][0] != 'sym':
+                            raise MmaError('unsupported statement in Module body %r' % (st[0],))
+                        env[st[1][1]] = _subst(st[2], env)
+                    body = body[1][-1]
                 return self.ev(_subst(body, env), rules)
             if h in self.d.seqdefs:
                 pname, body = self.d.seqdefs[h]
@@ -339,7 +388,10 @@ class Evaluator:
             if h in self.d.functions and h not in self.fn:
                 params, body = self.d.functions[h]
                 if len(params) != len(e[2]):
-                    raise MmaError('%s called with %d arguments' % (h, len(e[2])))
+                    alt = self.d.functions.get('%s/%d' % (h, len(e[2])))
+                    if alt is None:
+                        raise MmaError('%s called with %d arguments' % (h, len(e[2])))
+                    params, body = alt
                 # call by value on the term level: arguments are evaluated in the caller's rule context, then bound as symbols
                 vals = [self.ev(a, rules) for a in e[2]]
                 saved = dict(self.sym)
